@@ -22,14 +22,33 @@ def e2e_bin(hbin):
     return os.path.join(os.path.dirname(hbin), "hx-select-e2e")
 
 
-def run(hbin, args, env=None, timeout=60):
+def confine(ncpus):
+    """Command prefix that confines a fresh process to `ncpus` of the CPUs this process may use (None: no prefix)."""
+    if not ncpus or not hasattr(os, "sched_getaffinity"):
+        return []
+    cpus = sorted(os.sched_getaffinity(0))
+    if len(cpus) < ncpus or not os.path.exists("/usr/bin/taskset"):
+        return None
+    return ["/usr/bin/taskset", "-c", ",".join(str(c) for c in cpus[:ncpus])]
+
+
+def harness_parallelism(hbin, ncpus=None):
+    """std::thread::available_parallelism() as seen by a fresh harness process under the same confinement."""
+    pre = confine(ncpus)
+    if pre is None:
+        return None
+    p = subprocess.run(pre + [hbin, "par"], input="p\n", stdout=subprocess.PIPE, stderr=subprocess.PIPE, text=True, timeout=30)
+    return int(p.stdout.strip())
+
+
+def run(hbin, args, env=None, timeout=60, ncpus=None):
     """Runs the benchmark binary; returns (rc, stdout, stderr). rc 124 = watchdog."""
     e = {k: v for k, v in os.environ.items() if not k.startswith("DIVAN_") and k not in ("NEXTEST", "HX_BUILDER")}
     e["NO_COLOR"] = "1"
     if env:
         e.update(env)
     try:
-        p = subprocess.run([e2e_bin(hbin)] + args, env=e, stdout=subprocess.PIPE, stderr=subprocess.PIPE, text=True, timeout=timeout)
+        p = subprocess.run((confine(ncpus) or []) + [e2e_bin(hbin)] + args, env=e, stdout=subprocess.PIPE, stderr=subprocess.PIPE, text=True, timeout=timeout)
         return p.returncode, p.stdout, p.stderr
     except subprocess.TimeoutExpired as ex:
         return 124, (ex.stdout or b"").decode() if isinstance(ex.stdout, bytes) else (ex.stdout or ""), "WATCHDOG"
